@@ -1,4 +1,16 @@
 import FimVerif.Drivers.TopoRun
-open FimVerif FimVerif.Proto
+import FimVerif.Proofs.C09
+/-! C09 driver: the shared interpreter of `Model/Topo.lean` plus `{"op":"hyp"}`, which evaluates on the current model
+state the decidable state hypotheses of `C09.atomic_op` / `C09.atomic_xop` (Proofs/C09.lean), so that the harness can
+report on how many calls of a run the guards of the theorems hold (non-vacuity on reachable states). -/
+open Lean FimVerif FimVerif.Proto FimVerif.Topo
 
-def main : IO Unit := runState FimVerif.Topo.Topo.empty FimVerif.TopoRun.step
+def stepC09 (s : Topo) (j : Json) : Topo × Json :=
+  if FimVerif.TopoRun.getStr j "op" == "hyp" then
+    (s, ok (Json.mkObj [("ids", Json.bool (decide (IdsDistinct s))), ("closed", Json.bool (decide (Closed s))),
+                        ("cpEdgeOk", Json.bool (decide (CpEdgeOk s))), ("spLeaf", Json.bool (decide (SpLeaf s))),
+                        ("spOwned", Json.bool (decide (SpOwned s))), ("spPeer1", Json.bool (decide (SpPeer1 s))),
+                        ("removeHyp", Json.bool (decide (FimVerif.C09.RemoveHyp s)))]))
+  else FimVerif.TopoRun.step s j
+
+def main : IO Unit := runState FimVerif.Topo.Topo.empty stepC09
